@@ -18,10 +18,14 @@ pub fn stream_map(tier: Tier) -> Vec<Script> {
 }
 
 pub fn seq_scripts(tier: Tier) -> Vec<Script> {
-    match tier {
+    let v = match tier {
         Tier::Quick => families::seq_family(3, 0),
         Tier::Thorough => families::seq_family(4, 1),
-    }
+    };
+    // scripts the parser rejects are dropped (a null/never leaf replacement can leave a variable undefined);
+    // exploring them would only ever see preparation error 1
+    let ids: crate::script::PeerIds = ["A", "B", "C", "O"].iter().map(|n| (n.to_string(), crate::host::make_peer(n).id)).collect();
+    v.into_iter().filter(|s| air_parser::parse(&crate::script::print(&s.ast, &ids)).is_ok()).collect()
 }
 
 pub fn stream_map_err(tier: Tier) -> Vec<Script> {
@@ -75,6 +79,7 @@ pub fn monitor_for(id: &str, s: &Script) -> Option<Box<dyn Monitor>> {
         "C16" => Box::new(ms::C16::new()),
         "C17" => Box::new(ms::C17::new(s.family != "SEQ")),
         "C19" => Box::new(ms::C19::new(s.family == "SEQ")),
+        "C18" => Box::new(crate::mon_err::C18::new(s)),
         _ => return None,
     })
 }
@@ -178,11 +183,39 @@ pub fn check(id: &str, tier: Tier) -> Result<Report, String> {
             let res = run_e1("C19", &scripts, &cfg, &|s| monitor_for("C19", s).unwrap(), &["O"]);
             e1_report("C19", "per run: requests only for calls addressed to the peer, new results attributed to the peer, next peers without self/duplicates, newly sent entries imply next peers; per quiescent state: all peers' data merged at an observer hold no sent-but-unexecuted entry; non-trivial = runs that newly mark >= 2 entries as sent", &res, &cfg, BOUNDS)
         }
+        "C18" => {
+            let lvl = if tier == Tier::Quick { 0 } else { 1 };
+            let mut scripts = families::err_family(lvl);
+            scripts.extend(families::err_nofail_family());
+            let res = run_e1("C18", &scripts, &cfg, &|s| monitor_for("C18", s).unwrap(), &["O"]);
+            let mut rep = e1_report("C18", "every schedule of every ERR script (17 failure kinds x 8 contexts x {uncaught, caught inside, caught outside} x failing peer, plus xors whose left branch succeeds or waits and xors over an uncatchable error): per run the handler call must be requested only after a catchable failure and never in the no-failure / uncatchable scripts; per quiescent state of a caught variant the handler was requested; across variants the set of (error_code, message) handed to the handler equals the set of (ret_code, error_message) the uncaught variant's runs end with; non-trivial = distinct (code, message) observations", &res, &cfg, BOUNDS);
+            let by = res.extras[0]["by_script"].clone();
+            let (diffs, compared, codes_seen) = crate::mon_err::compare_variants(&by);
+            for (sig, desc, names) in diffs {
+                let pair: Vec<&Script> = names.iter().filter_map(|n| scripts.iter().find(|s| &s.name == n)).collect();
+                rep.violations.push(check::Violation {
+                    signature: sig,
+                    description: desc,
+                    replay: json!({"engine": "c18pair", "scripts": pair.iter().map(|s| serde_json::to_value(s).unwrap()).collect::<Vec<_>>(), "tier": tier.name()}),
+                });
+            }
+            rep.cov("variant_pairs_compared", json!(compared));
+            rep.cov("uncaught_codes_seen", json!(codes_seen));
+            // the per-script observations are large; keep a digest only
+            rep.coverage.insert("monitor_counters".into(), json!({"scripts_with_observations": by.as_object().map(|m| m.len()).unwrap_or(0)}));
+            if compared == 0 {
+                rep.machinery_errors.push("vacuous: no caught/uncaught pair was compared".into());
+            }
+            rep
+        }
         "C25" => crate::e2::check_c25(tier),
         "C26" => crate::e2::check_c26(tier),
         "C21" => crate::e2b::check_c21(tier),
         "C22" => crate::e2b::check_c22(tier),
         "C24" => crate::e2c::check_c24(tier),
+        "C27" => crate::e2d::check_c27(tier),
+        "C23" => crate::e2f::check_c23(tier),
+        "C28" => crate::e2f::check_c28(tier),
         _ => return Err(format!("no check for {id}")),
     };
     let _ = json!(null);
@@ -197,6 +230,33 @@ pub fn replay_other(v: &serde_json::Value) -> i32 {
             return crate::e2::replay_verdict(v, f, again);
         }
         return crate::e2::replay(v);
+    }
+    if v["engine"].as_str() == Some("c18pair") {
+        let scripts: Vec<Script> = v["scripts"].as_array().map(|a| a.iter().filter_map(|x| serde_json::from_value(x.clone()).ok()).collect()).unwrap_or_default();
+        let tier = if v["tier"].as_str() == Some("thorough") { Tier::Thorough } else { Tier::Quick };
+        let cfg = cfg_for(tier);
+        let mut verdicts = vec![];
+        for _ in 0..2 {
+            let res = run_e1("C18", &scripts, &cfg, &|s| monitor_for("C18", s).unwrap(), &["O"]);
+            let (diffs, _, _) = crate::mon_err::compare_variants(&res.extras[0]["by_script"]);
+            verdicts.push(diffs);
+        }
+        if verdicts[0] != verdicts[1] {
+            println!("REPLAY-NONDETERMINISTIC");
+            return 2;
+        }
+        let want = v["signature"].as_str().unwrap_or("");
+        return match verdicts[0].iter().find(|d| d.0 == want) {
+            Some(d) => {
+                println!("VIOLATION property=C18 replay={}", v["__path"].as_str().unwrap_or("<file>"));
+                println!("reproduced: {}: {}", d.0, d.1);
+                1
+            }
+            None => {
+                println!("not reproduced");
+                0
+            }
+        };
     }
     crate::host::elog("unknown replay engine");
     2
